@@ -12,4 +12,4 @@ open ShuttleProofs
 #print axioms C07.task_ids_unique
 #print axioms C07.closure_runs_once
 #print axioms C07.scope_waits_for_all
-#print axioms C07.scope_unblock_is_unconditional_witness
+#print axioms C07.scope_unblock_only_when_waiting
